@@ -13,7 +13,7 @@ MANIFEST = dict(
          "C++ on every generated sequence (three container/value types, default and custom comparators, emission order compared). "
          "Proved for all inputs: the machine never indexes out of bounds nor trips its GUDHI_CHECK and ends within its fuel, every emitted "
          "pair has birth < death, the infinite class is born at the global minimum, the machine commutes with every relabelling that is "
-         "strictly monotone on the input (it only compares). Proved for all sequences of length <= 7 (bound in the statement): its sorted "
+         "strictly monotone on the input (it only compares). Proved for all sequences of length <= 6 (bound in the statement): its sorted "
          "output equals the 0-dimensional barcode of the lower-star path complex computed by the certified reduction of ReduceExec.v. "
          "Rectangle routine (Persistence_on_rectangle.h): NOT proved - exhaustive differential validation against the same proved oracle "
          "applied to the full cubical complex built from the top cells: every weak order of the cells of 2x2, 2x3, 3x2 grids in both "
@@ -363,7 +363,7 @@ def enum_jobs(tier):
     jobs = []
     q = tier == "quick"
     for (r, c) in [(2, 2), (2, 3), (3, 2)]:
-        jobs.append((r, c, "b", 0 if r * c == 4 else 1, 1 if (r * c == 4 or not q) else 10))
+        jobs.append((r, c, "b", 0 if r * c == 4 else 1, 1 if (r * c == 4 or not q) else 3))
     if not q:
         for (r, c) in [(2, 4), (4, 2)]:
             jobs.append((r, c, "b", 2, 500))
